@@ -35,6 +35,11 @@ def run(tier):
         for case in algebra.exponent_cases("powf"):
             algebra.end_to_end(chk, F, ty, "powf", "L2-fn", lambda ctx, case=case: pow_real(case), exponent_case=case)
         c08.check_type(chk, F, ty, thorough=True)
+    # conversions: checked / unchecked narrowing and widening treat an absent part like a zero part
+    from . import c13
+    c13.container_conversions(chk, F, True)
+    for ty in ("DualVec", "Dual2Vec"):
+        c13.type_conversions(chk, F, ty, True)
     who_may_access(chk, F)
     chk.floor("Derivative operator impls", chk.analysed.get("Derivative operator impls", 0), 17)
     chk.floor("Derivative inherent methods", chk.analysed.get("Derivative inherent methods", 0), 6)
